@@ -101,3 +101,87 @@ def unit_get_value2(twin=False):
     r.add("reach.all_variant_types", DISCHARGED if seen == set(tt) else UNDECIDED, "symex", 0, repr(sorted(seen)), kind="vacuity")
     r.assumptions += ["snprintf renders the number (formats are under C05.format / C09)", "strncpy(dst, src, n) writes at most n bytes (libc)", "toreal: long -> double conversion is exact below 2^53"]
     return r
+
+
+def unit_iphreeqc_endrow(twin=False):
+    """IPhreeqc::EndRow: before a row of the table is closed every USER_PUNCH heading that received no value in this row gets
+    an empty cell (so the table has one column per heading whatever the BASIC program punched), then the table's EndRow result
+    is returned."""
+    q = "IPhreeqc::EndRow"
+    fn = A.find_function(IPQ, q)
+    r = U.new_unit("C05.IPhreeqc_EndRow.every_user_punch_heading_gets_a_cell", IPQ, q, fn)
+    c = ctx(functional=("Get_n_user", "Get_headings", "size"))
+    f, ex, fin, info = U.run_function(IPQ, q, modes={0: "iter"}, ctx=c)
+    entries = info["entry"].get(0, [])
+    its = info["iter"].get(0, [])
+    if not entries:
+        r.add("padding_loop_reachable", FAILED, "symex", 0, "no path reaches the padding loop"); return r
+    s0 = entries[0]
+    pp = fld0(ex, s0, "PhreeqcPtr", "P")
+    cso = fld0(ex, s0, "current_selected_output", "P", pp); cup = fld0(ex, s0, "current_user_punch", "P", pp)
+    has = [t for t in tm.subterms(tm.and_(*s0.pc)) if t.op == "select" and t.args[0].op == "sym" and "#mhas" in t.args[0].args[0]]
+    pre = [tm.not_(tm.eq(cso, tm.num(0, "P"))), tm.not_(tm.eq(cup, tm.num(0, "P")))] + has[:1]
+    if twin:
+        pre = pre[:1] + has[:1]
+    cover = tm.or_(*[tm.and_(*e.pc) for e in entries])
+    U.discharge_valid(r, "padding_runs_whenever_a_table_and_a_user_punch_exist(no_other_guard)", pre, cover)
+    # loop starts at the number of values punched in this row
+    lp = loop_node(fn, 0)
+    init = text_of(IPQ, lp["inner"][0]); cond = text_of(IPQ, lp["inner"][2])
+    r.add("padding.starts_at_n_user_punch_index", DISCHARGED if init.rstrip(";").endswith("=this->PhreeqcPtr->n_user_punch_index") else FAILED, "syntactic", 0, init, kind="structural")
+    r.add("padding.runs_to_the_number_of_headings", DISCHARGED if cond.endswith("<this->PhreeqcPtr->current_user_punch->Get_headings().size()") else FAILED, "syntactic", 0, cond, kind="structural")
+    n = 0
+    for s in [s for s in its if s.status in ("run", "cont") and B.z3_sat(list(s.pc)) != "unsat"]:
+        n += 1
+        pb = [e for e in U.iter_events(s) if e.name.endswith("PushBackEmpty")]
+        r.add("padding.one_empty_cell_per_missing_heading", DISCHARGED if len(pb) == 1 else FAILED, "trace", 0, repr([e.args for e in pb])[:160], kind="trace")
+    r.add("reach.padding_iteration", DISCHARGED if n else UNDECIDED, "symex", 0, "%d" % n, kind="vacuity")
+    for s in [s for s in fin if s.status == "ret" and B.z3_sat(list(s.pc)) != "unsat"]:
+        er = [e for e in s.events if e.name.split("::")[-1] == "EndRow"]
+        if er:
+            r.add("table_row_closed_and_result_returned", DISCHARGED if s.ret is er[-1].result else FAILED, "symex", 0, repr(s.ret)[:60])
+        else:
+            r.add("no_table.returns_0", DISCHARGED if tm.isnum(s.ret) and s.ret.args[0] == 0 else FAILED, "symex", 0, repr(s.ret)[:60])
+    r.assumptions += ["CSelectedOutput::PushBackEmpty / EndRow are under C05.table.*", "which heading text is passed is read from the loop body only"]
+    return r
+
+
+def unit_punch_order(twin=False):
+    """Cells are written in the order the headings were written: the blocks of punch_all (one punch_* routine per kind of column)
+    follow the order in which tidy_punch writes the heading blocks, each routine iterating the collection its heading block
+    iterates."""
+    import re
+    PRINT = "src/phreeqcpp/print.cpp"; TIDY = "src/phreeqcpp/tidy.cpp"
+    fa = A.find_function(PRINT, "Phreeqc::punch_all")
+    r = U.new_unit("C05.punch_all.cells_follow_heading_order", PRINT, "Phreeqc::punch_all", fa, kind="structural")
+    ft = A.find_function(TIDY, "Phreeqc::tidy_punch")
+    heads = []
+    for lp in A.walk(ft):
+        if lp.get("kind") == "ForStmt" and lp["inner"][2] and "fpunchf_heading(" in text_of(TIDY, lp["inner"][-1]):
+            m = re.search(r"current_selected_output->Get_(\w+)\(\)\.size\(\)", text_of(TIDY, lp["inner"][2]))
+            if m and (not heads or heads[-1] != m.group(1)):
+                heads.append(m.group(1))
+    calls = []
+    for x in A.walk(fa):
+        if x.get("kind") == "CXXMemberCallExpr":
+            nm = strip(x["inner"][0]).get("name", "")
+            if nm.startswith("punch_") and nm not in ("punch_msg", "punch_flush", "punch_user_graph", "punch_identifiers", "punch_user_punch", "punch_all"):
+                calls.append(nm)
+    cells = []
+    for nm in calls:
+        fp = None
+        for rel in (PRINT, "src/phreeqcpp/isotopes.cpp"):
+            try:
+                fp = A.find_function(rel, "Phreeqc::" + nm); break
+            except Exception:
+                continue
+        if fp is None:
+            r.add("%s.body_found" % nm, UNDECIDED, "syntactic", 0, ""); continue
+        m = re.search(r"current_selected_output->Get_(\w+)\(\)\.size\(\)", text_of(rel, fp))
+        cells.append(m.group(1) if m else "?" + nm)
+    if twin and len(cells) > 2:
+        cells[0], cells[1] = cells[1], cells[0]
+    r.add("reach.blocks", DISCHARGED if len(heads) >= 8 and len(cells) >= 8 else UNDECIDED, "syntactic", 0, "headings %r cells %r" % (heads, cells), kind="vacuity")
+    r.add("cell_blocks_in_heading_order", DISCHARGED if cells == heads else FAILED, "syntactic", 0, "heading blocks: %r; cell blocks (punch_all order): %r" % (heads, cells))
+    r.assumptions += ["identifier columns (sim, state, ...) and USER_PUNCH come first / last in both by construction and are not compared", "within a block both sides iterate the same vector in index order (read from the loop heads)"]
+    return r
